@@ -75,8 +75,17 @@ func c15(c *Ctx) {
 	{
 		ncw, ndr := c.P.Field("Conn", "newCompressionWriter"), c.P.Field("Conn", "newDecompressionReader")
 		wFns, rFns := map[*ssa.Function]bool{}, map[*ssa.Function]bool{}
+		privateOnly := map[*ssa.Function]bool{}
 		for _, s := range c.P.FieldStoreSites(ncw) {
 			wFns[s.Parent()] = true
+			// a Conn allocated in the same function and used only to render frames (never read from)
+			fa, _ := s.Addr.(*ssa.FieldAddr)
+			_, isNew := fa.X.(*ssa.Alloc)
+			if prev, seen := privateOnly[s.Parent()]; seen {
+				privateOnly[s.Parent()] = prev && isNew
+			} else {
+				privateOnly[s.Parent()] = isNew
+			}
 		}
 		for _, s := range c.P.FieldStoreSites(ndr) {
 			rFns[s.Parent()] = true
@@ -87,7 +96,7 @@ func c15(c *Ctx) {
 				continue
 			}
 			n++
-			if (fn.Parent() != nil && shortFn(fn.Parent()) == "(*PreparedMessage).frame") || (!knownFuncs[shortFn(fn)] && strings.Contains(shortFn(fn), "PreparedMessage")) {
+			if (fn.Parent() != nil && shortFn(fn.Parent()) == "(*PreparedMessage).frame") || (!knownFuncs[shortFn(fn)] && (strings.Contains(shortFn(fn), "PreparedMessage") || privateOnly[fn])) {
 				r.Check("C15.paired", shortFn(fn), "writer-only-on-private-conn", fn.Pos(), wFns[fn] && !rFns[fn], "private rendering Conn: writer only (table entry)")
 				continue
 			}
@@ -227,7 +236,7 @@ func (d *dialA) preNetworkOffer(rule string) {
 func c15levels(c *Ctx) {
 	r := c.R
 	lvl := c.P.Field("Conn", "compressionLevel")
-	valid := c.fn("isValidCompressionLevel")
+	valid := c.P.FuncOpt("isValidCompressionLevel") // optional: the range test may be written inline
 	minL, maxL, defL := c.P.ConstInt("minCompressionLevel"), c.P.ConstInt("maxCompressionLevel"), c.P.ConstInt("defaultCompressionLevel")
 	pools := c.P.Global("flateWriterPools")
 	at, isArr := pools.Type().Underlying().(*types.Pointer).Elem().Underlying().(*types.Array)
@@ -239,7 +248,7 @@ func c15levels(c *Ctx) {
 			return "?"
 		}(), maxL-minL+1, defL))
 	// isValidCompressionLevel: true only within [min, max]
-	{
+	if valid != nil {
 		ok, why := true, "returns true exactly for min <= level <= max"
 		c.explore("C15.level-range", valid, core.Opts{}, func(p *core.Path) {
 			if p.End != core.EndReturn {
@@ -271,14 +280,18 @@ func c15levels(c *Ctx) {
 			r.Pass("C15.level-range", shortFn(fn), "store-level-from-prepare-key", st.Pos(), "level comes from prepareKey.compressionLevel, a copy of a validated Conn.compressionLevel")
 			continue
 		}
-		c.explore("C15.level-range", fn, core.Opts{Pure: func(f *ssa.Function) bool { return f == valid }}, func(p *core.Path) {
+		// the range predicate is inlined (or already written inline): at the store the interval facts of the path
+		// must confine the level to the index range of the pools
+		c.explore("C15.level-range", fn, core.Opts{Inline: func(f *ssa.Function, d int) bool { return valid != nil && f == valid }}, func(p *core.Path) {
 			for i := range p.Events {
 				ev := &p.Events[i]
 				if ev.Kind == core.EvStore && isFieldAddr(ev.Addr, lvl) {
 					n++
 					v := ev.Val
-					if !hasLit(p, ev.NLits, true, func(t *core.Term) bool { return t.Kind == core.KApp && t.Ref == interface{}(valid) && t.Args[0] == v }) {
-						ok, why = false, "a compression level is stored without having passed isValidCompressionLevel (an out-of-range level indexes outside flateWriterPools)"
+					lo, hasLo := p.X.Lower(v)
+					hi, hasHi := p.X.Upper(v)
+					if !(hasLo && hasHi && lo >= minL && hi <= maxL) {
+						ok, why = false, fmt.Sprintf("a compression level is stored at %s without being known to lie in [%d, %d] (an out-of-range level indexes outside flateWriterPools)", c.P.Pos(ev.Instr.Pos()), minL, maxL)
 					}
 				}
 			}
